@@ -199,6 +199,27 @@ impl Hist {
                     Err(e) => format!("err:{}", db_err(&e)),
                 }
             }
+            // a store created over an event.map that already exists, zero-filled, `n` bytes long (preallocated by whoever set the
+            // directory up, or left by an interrupted creation): everything else in the directory is removed first
+            "prealloc" => {
+                let n = t.n();
+                drop(self.store.take());
+                for ent in std::fs::read_dir(self.dir.path()).unwrap().flatten() {
+                    let p = ent.path();
+                    let _ = if p.is_dir() { std::fs::remove_dir_all(&p) } else { std::fs::remove_file(&p) };
+                }
+                let f = std::fs::File::create(self.dir.path().join("event.map")).unwrap();
+                f.set_len(n as u64).unwrap();
+                drop(f);
+                self.offsets.clear();
+                match Store::new(self.dir.path(), self.names.clone()) {
+                    Ok(s) => {
+                        self.store = Some(s);
+                        "ok".to_string()
+                    }
+                    Err(e) => format!("err:{}", db_err(&e)),
+                }
+            }
             "rebuild" => {
                 let s = self.store.take().unwrap();
                 match unsafe { s.rebuild() } {
